@@ -290,14 +290,16 @@ def branchInit (c : Cell) : Cell := { c with isTuple := true }
 def rowCells (g : GroupTable) (b : Branch) : List Cell :=
   ((List.range b.length).zip b).map (fun ie => branchInit (cellOf g ie.1 ie.2))
 
-/-- `find_object_branches(branchspec, regex_groups=True, empty_branches, reverse)`: every grown
-branch (complete or padded with `None`) becomes a row of cells.  The later
-`any(ii is None for ii in branch)` looks at cells — tuples and lists, never `None` — so it discards
-nothing: `empty_branches=False` has no effect (finding FC04f). -/
-def findObjectBranchesGroups (t : T) (rs : List Row) (g : GroupTable) (_emp rev pend : Bool) :
+/-- `find_object_branches(branchspec, regex_groups=True, empty_branches, reverse)`: the grown branches -- all of
+them, complete or padded with `None`, when `empty_branches`, otherwise only the complete ones (the partial branches
+are dropped BEFORE the conversion) -- become rows of cells.  The later `any(ii is None for ii in branch)` looks at
+cells -- tuples and lists, never `None` -- and discards nothing more.  (Before the repair `fix:
+find_object_branches(regex_groups=True) drops partial branches unless empty_branches=True` that later filter was the
+only one, so `empty_branches=False` had no effect and the padded rows were returned: finding FC04f.) -/
+def findObjectBranchesGroups (t : T) (rs : List Row) (g : GroupTable) (emp rev pend : Bool) :
     Except FErr (List (List Cell)) :=
   if pend then .error .notImplementedError
-  else match findObjectBranches t rs true false with
+  else match findObjectBranches t rs emp false with
     | .error e => .error (FErr.ofSearch e)
     | .ok bs =>
       let m := bs.map (rowCells g)
